@@ -62,6 +62,12 @@ pub static ON_DEADLINE: Mutex<Option<Box<dyn Fn() + Send>>> = Mutex::new(None);
 pub static PIPES: Mutex<Vec<(i32, i32)>> = Mutex::new(Vec::new());
 static RANDOM_STATE: AtomicU64 = AtomicU64::new(0x5EED_5EED_5EED_5EED);
 
+/// diagnosis: `touch /verif/scratch/TRACE` makes the seam print every wait and every
+/// non-PEEK/POKE ptrace call to stderr
+fn trace_on() -> bool {
+    std::path::Path::new("/verif/scratch/TRACE").exists()
+}
+
 pub fn set_random_seed(seed: u64) {
     RANDOM_STATE.store(seed, Ordering::SeqCst);
 }
@@ -132,12 +138,18 @@ pub unsafe extern "C" fn waitpid(pid: libc::pid_t, status: *mut libc::c_int, opt
         }
     };
     let target = decided.unwrap_or(pid);
+    if trace_on() {
+        eprintln!("SEAM wait4({target}, opts={options:#x}) ...");
+    }
     let mut st: i32 = 0;
     let opts = if decided.is_some() { options | libc::__WALL } else { options };
     let r = raw::wait4(target, &mut st, opts);
     let e = raw::errno();
     if !status.is_null() {
         unsafe { *status = st };
+    }
+    if trace_on() {
+        eprintln!("SEAM wait4({target}) = {r} status={st:#x}");
     }
     {
         let mut g = SEAM.lock().unwrap();
@@ -187,6 +199,9 @@ pub unsafe extern "C" fn ptrace(req: libc::c_uint, pid: libc::pid_t, addr: *mut 
         if let Some(w) = g.world.as_mut() {
             w.after_ptrace(req, pid, a, d, ret);
         }
+    }
+    if trace_on() && !matches!(req, 1 | 2 | 3 | 4 | 5 | 6) {
+        eprintln!("SEAM ptrace(req={req:#x}, pid={pid}, addr={a:#x}, data={d:#x}) = {ret} errno={e}");
     }
     // glibc contract for PEEK*: value returned, errno cleared on success
     unsafe { *libc::__errno_location() = e };
